@@ -170,6 +170,16 @@ impl WorkspaceManager {
     }
 
     pub fn reindex_workspace(&self, delay: Duration) {
+        self.reindex_workspace_impl(None, delay);
+    }
+
+    /// Reindex that knows the server context: documents open in the editor survive the clean-up of
+    /// files missing on disk, and removed files get their pushed diagnostics cleared.
+    pub fn reindex_workspace_with_context(&self, context: ServerContextSnapshot, delay: Duration) {
+        self.reindex_workspace_impl(Some(context), delay);
+    }
+
+    fn reindex_workspace_impl(&self, context: Option<ServerContextSnapshot>, delay: Duration) {
         log::info!("reindex workspace with delay: {:?}", delay);
         let (cancel_token, cancelled_existing) = self.reindex_token.replace(delay);
         if cancelled_existing {
@@ -190,7 +200,26 @@ impl WorkspaceManager {
             }
 
             // Perform reindex with minimal lock holding time
-            {
+            if let Some(context) = &context {
+                // lock order: workspace_manager (read) -> analysis (write); holding the read lock
+                // keeps the set of open documents stable while files missing on disk are removed
+                let workspace_manager = context.workspace_manager().read().await;
+                let open_uris = workspace_manager
+                    .workspace_open_files()
+                    .into_iter()
+                    .map(|(uri, _)| uri)
+                    .collect::<Vec<_>>();
+                let mut analysis = analysis.write().await;
+                let removed_uris = analysis.cleanup_nonexistent_files_except(&open_uris);
+                analysis.reindex();
+                drop(analysis);
+                drop(workspace_manager);
+                if !lsp_features.supports_pull_diagnostic() {
+                    for uri in removed_uris {
+                        file_diagnostic.clear_push_file_diagnostics(uri);
+                    }
+                }
+            } else {
                 let mut analysis = analysis.write().await;
                 // 在重新索引之前清理不存在的文件
                 analysis.cleanup_nonexistent_files();
